@@ -90,6 +90,8 @@ Fixpoint c04_mismatches (i : nat) (cs : list c04case) : list (nat * list Z) :=
 Record c05case := mkcase5 {
   q_anjahr : Z; q_start : Z * Z * Z; q_end : Z * Z * Z; q_annual : Z * Z;
   q_outint : Z;
+  q_ly : list (Z * Z);                (* [] : every year is loaded with all its days; else JTAG by extension key of the year's file name
+                                         (per-year layout with deficient files: a year whose key is absent keeps the previous JTAG) *)
   q_ernte : list (Z * Z * Z);         (* harvest dates of the rotation entries, d m y *)
   q_success : bool;
   q_daily : list int;                 (* day numbers of the records of the V file, in file order *)
@@ -106,6 +108,11 @@ Fixpoint zs_same (a : list Z) (b : list int) : bool :=
 
 Definition ylen_ly (y : Z) : option Z := Some (ylen y).
 
+Fixpoint tbl_find (k : Z) (l : list (Z * Z)) : option Z :=
+  match l with [] => None | (a, b) :: r => if a =? k then Some b else tbl_find k r end.
+Definition ly_of (tbl : list (Z * Z)) (y : Z) : option Z :=
+  match tbl with [] => Some (ylen y) | _ => tbl_find (ext_key y) tbl end.
+
 Definition c05_check (c : c05case) : Z :=
   let '(sd, sm, sy) := q_start c in let '(ed, em, ey) := q_end c in let '(ad, am) := q_annual c in
   match bounds_of sd sm sy ed em ey ad am with
@@ -113,7 +120,7 @@ Definition c05_check (c : c05case) : Z :=
   | Some b =>
       let ernte := map (fun t : Z * Z * Z => let '(d, m, y) := t in
                           match masdat_num d m (y - 1900) with Some (_, n) => n | None => 0 end) (q_ernte c) in
-      match run_events ylen_ly (q_outint c) (b_outday b) ernte (q_anjahr c) (b_beginn b) (b_itag b) (b_ende b) with
+      match run_events (ly_of (q_ly c)) (q_outint c) (b_outday b) ernte (q_anjahr c) (b_beginn b) (b_itag b) (b_ende b) with
       | None => if q_success c then 8 else 0
       | Some ev =>
           if negb (q_success c) then 8 else
